@@ -478,6 +478,15 @@ def explore(ctx, drv, model, cases, search=False):
         if fl.startswith("W"):
             ctx.cov["trees_wp"] = ctx.cov.get("trees_wp", 0) + (1 if fl[1] == "1" else 0)
             ctx.cov["trees_total"] = ctx.cov.get("trees_total", 0) + 1
+            if len(fl) >= 10:
+                ctx.cov["trees_satisfying_cguard"] = ctx.cov.get("trees_satisfying_cguard", 0) + (1 if fl[7] == "1" else 0)
+                ctx.cov["trees_satisfying_nguard"] = ctx.cov.get("trees_satisfying_nguard", 0) + (1 if fl[9] == "1" else 0)
+                if fl[7] == "1" and (fl[1] != "1" or fl[3] != "1"):
+                    ctx.broken.append({"kind": "proof", "name": "C15_cprint_parse_guarded contradicted by the extracted model",
+                                       "detail": r["recipe"] + " " + fl})
+                if fl[9] == "1" and fl[5] != "1":
+                    ctx.broken.append({"kind": "proof", "name": "C15_no_int_div_guarded contradicted by the extracted model",
+                                       "detail": r["recipe"] + " " + fl})
             if fl[3] != "1":
                 ctx.violation(classify(r, "reads"),
                               "`%s`: the emitted C `%s` read with C's precedence rules is not the printed operator tree" % (
